@@ -8,7 +8,9 @@ package main
 // including the updateNegotiationNeededFlagOnEmptyChain re-check); the handler
 // records SignalingState() and [[IsClosed]] at each invocation. Compared with
 // Model.Negotiation per call, and checked directly against the property's
-// three sentences.
+// three sentences, read with W3C's check / flag algorithm (transcribed again
+// here, independently of the Coq model) as the meaning of "requires
+// renegotiation" and "needed negotiation".
 
 import (
 	"fmt"
@@ -29,11 +31,11 @@ type c04Peer struct {
 	fires []c04Fire
 	seen  int // fires already attributed to a call
 	obs   VL
-	// oracle bookkeeping
-	firedSinceStable bool // a firing happened since the last transition into stable
-	withdrawn        bool // ... and the flag was seen clear again after it
-	prevState        int
-	total            int
+	// oracle bookkeeping: W3C's [[NegotiationNeeded]] as the oracle's own
+	// transcription of "update the negotiation-needed flag" maintains it
+	outstanding bool
+	total       int
+	ambiguous   int
 }
 
 func c04HasApp(d *webrtc.SessionDescription) bool {
@@ -52,22 +54,116 @@ func c04HasApp(d *webrtc.SessionDescription) bool {
 	return false
 }
 
-// does the current local description already announce this msid on this mid?
-func c04Advertised(d *webrtc.SessionDescription, mid, msid string) bool {
-	if d == nil || mid == "" {
-		return false
+func c04Parse(d *webrtc.SessionDescription) *sdp.SessionDescription {
+	if d == nil {
+		return nil
 	}
 	parsed := &sdp.SessionDescription{}
 	if parsed.UnmarshalString(d.SDP) != nil {
-		return false
+		return nil
 	}
-	for _, m := range parsed.MediaDescriptions {
+	return parsed
+}
+
+func c04Section(d *sdp.SessionDescription, mid string) *sdp.MediaDescription {
+	if d == nil {
+		return nil
+	}
+	for _, m := range d.MediaDescriptions {
 		if v, ok := nMid(m); ok && v == mid {
-			x, ok := m.Attribute("msid")
-			return ok && x == msid
+			return m
 		}
 	}
-	return false
+	return nil
+}
+
+// what this side may do when it wants `want` and the remote offered `offered`
+// (JSEP 5.3.1): send only if the offerer receives, receive only if it sends
+func c04Intersect(want, offered int) int {
+	send := (want == 1 || want == 2) && (offered == 1 || offered == 3)
+	recv := (want == 1 || want == 3) && (offered == 1 || offered == 2)
+	switch {
+	case send && recv:
+		return 1
+	case send:
+		return 2
+	case recv:
+		return 3
+	}
+	return 4
+}
+
+// W3C webrtc-pc "check if negotiation is needed", transcribed from the spec text
+// onto what the API shows: CurrentLocalDescription / CurrentRemoteDescription,
+// GetTransceivers(), the number of data channels this side created.
+// ambiguous: the type-answer clause gives different verdicts with and without
+// "intersected with the offered direction" -- that only happens when the local
+// answer was not a legal response to the offer (C08's finding), and the oracle
+// then makes no prediction.
+func c04W3CNeeded(p *nPeer) (needed, ambiguous bool) {
+	pc := p.pc
+	local := pc.CurrentLocalDescription()
+	if local == nil {
+		return true, false // step 3: no current local description yet
+	}
+	ld := c04Parse(local)
+	rd := c04Parse(pc.CurrentRemoteDescription())
+	// step 4: data channels created, none negotiated
+	if p.dcs > 0 && !c04HasApp(local) {
+		return true, false
+	}
+	for _, t := range pc.GetTransceivers() { // step 5
+		if t.Mid() == "" {
+			return true, false // 5.2 not associated with an m= section
+		}
+		sec := c04Section(ld, t.Mid())
+		if sec == nil {
+			return true, false
+		}
+		dir := int(t.Direction())
+		if dir == 1 || dir == 2 { // 5.3.1 sending: the msid must be the one announced
+			sn := t.Sender()
+			if sn == nil {
+				return true, false
+			}
+			if sn.Track() == nil {
+				continue // replaceTrack(null) needs no negotiation
+			}
+			v, ok := sec.Attribute("msid")
+			if !ok || v != sn.Track().StreamID()+" "+sn.Track().ID() {
+				return true, false
+			}
+		}
+		switch local.Type {
+		case webrtc.SDPTypeOffer: // 5.3.2 neither description matches the direction
+			rsec := c04Section(rd, t.Mid())
+			if rsec == nil {
+				return true, false
+			}
+			rev := dir
+			if dir == 2 {
+				rev = 3
+			} else if dir == 3 {
+				rev = 2
+			}
+			if nDirOf(sec) != dir && nDirOf(rsec) != rev {
+				return true, false
+			}
+		case webrtc.SDPTypeAnswer: // 5.3.3
+			direct := nDirOf(sec) != dir
+			withOffer := direct
+			if rsec := c04Section(rd, t.Mid()); rsec != nil && nDirOf(rsec) != 0 {
+				withOffer = nDirOf(sec) != c04Intersect(dir, nDirOf(rsec))
+			}
+			if direct != withOffer {
+				return false, true
+			}
+			if direct {
+				return true, false
+			}
+		}
+	}
+	return false, false
 }
 
 func c04Exec(c nCase) (V, string, Verdict) {
@@ -77,7 +173,7 @@ func c04Exec(c nCase) (V, string, Verdict) {
 	var st [2]*c04Peer
 	for i := 0; i < 2; i++ {
 		i := i
-		st[i] = &c04Peer{prevState: 1}
+		st[i] = &c04Peer{}
 		pc := w.peers[i].pc
 		pc.OnNegotiationNeeded(func() {
 			f := c04Fire{state: int(pc.SignalingState()), closed: pc.VerifIsClosed()}
@@ -131,6 +227,7 @@ func c04Exec(c nCase) (V, string, Verdict) {
 		s.total += len(fresh)
 
 		// ---- direct oracle ----
+		closedNow := pc.VerifIsClosed()
 		// sentence 1: never while not stable or closed
 		for _, f := range fresh {
 			if f.closed {
@@ -142,68 +239,60 @@ func c04Exec(c nCase) (V, string, Verdict) {
 		toStable := before.state != 1 && after == 1
 		if toStable {
 			exchanges++
-			s.firedSinceStable = false
-			s.withdrawn = false
+			s.outstanding = false // an exchange completed
 		}
-		// sentence 3: no second firing until an exchange completes
-		for range fresh {
-			if s.firedSinceStable {
-				if s.withdrawn {
-					bad("refire-after-need-withdrawn",
-						fmt.Sprintf("peer %d call %s: fired again without a completed exchange; in between the flag had been cleared because negotiation was no longer needed", p, op.K))
-				} else {
-					bad("second-firing-before-exchange-completes", fmt.Sprintf("peer %d call %s", p, op.K))
-				}
-			}
-			s.firedSinceStable = true
-			s.withdrawn = false
-		}
-		if s.firedSinceStable && !flag {
-			s.withdrawn = true
-		}
-		// sentence 2: after a change that requires renegotiation it fires once stable
-		if status == "ok" && before.state == 1 && !before.closed && !toStable {
-			change, cause := false, "no-firing-after-change"
+		// the calls that run "update the negotiation-needed flag"
+		change := false
+		if status == "ok" {
 			switch op.K {
-			case nAddTcvKind, nAddTcvTrack:
+			case nAddTrack, nAddTcvKind, nAddTcvTrack, nDataChannel:
 				change = true
-			case nAddTrack:
-				change = true
-				// the transceiver that now carries the track
-				for _, t := range pc.GetTransceivers() {
-					if sn := t.Sender(); sn != nil && sn.Track() != nil && sn.Track().ID() == op.ID &&
-						sn.Track().StreamID() == op.Stream &&
-						c04Advertised(pc.CurrentLocalDescription(), t.Mid(), op.Stream+" "+op.ID) {
-						cause = "addtrack-reuse-already-advertised-no-firing"
-					}
-				}
-			case nDataChannel:
-				change = before.dcs == 0 && !before.localApp
-			}
-			if change && !s.firedSinceStable && len(fresh) == 0 {
-				bad(cause, fmt.Sprintf("peer %d call %s in stable state with the flag clear: no negotiationneeded", p, op.K))
-			}
-			if change && len(fresh) > 1 {
-				bad("several-firings-for-one-change", fmt.Sprintf("peer %d call %s: %d", p, op.K, len(fresh)))
 			}
 		}
-		// ... including a change made while an exchange was in progress
-		if toStable && !pc.VerifIsClosed() {
-			for ti, t := range pc.GetTransceivers() {
-				if t.Mid() == "" && len(fresh) == 0 {
-					bad("no-firing-on-stable-with-unnegotiated-transceiver",
-						fmt.Sprintf("peer %d call %s: transceiver %d has no mid", p, op.K, ti))
+		update := toStable || change || (status == "ok" && op.K == nRemoveTrack)
+		if update && after == 1 && !closedNow {
+			needed, ambiguous := c04W3CNeeded(w.peers[p])
+			switch {
+			case ambiguous:
+				s.ambiguous++
+				s.outstanding = flag // no prediction; follow the implementation
+			case !needed:
+				// sentence 2, negative half / "once per NEEDED negotiation"
+				s.outstanding = false
+				if len(fresh) > 0 {
+					bad("firing-without-need", fmt.Sprintf("peer %d call %s: the W3C check is false", p, op.K))
 				}
+			case s.outstanding:
+				// sentence 3: the need has been there since the last firing
+				if len(fresh) > 0 {
+					bad("second-firing-while-need-outstanding", fmt.Sprintf("peer %d call %s", p, op.K))
+				}
+			default:
+				// sentence 2: a change that requires renegotiation, stable: fires once
+				switch {
+				case len(fresh) == 0 && toStable:
+					bad("no-firing-on-reaching-stable-with-need", fmt.Sprintf("peer %d call %s", p, op.K))
+				case len(fresh) == 0:
+					bad("no-firing-after-change-requiring-renegotiation", fmt.Sprintf("peer %d call %s in stable state", p, op.K))
+				case len(fresh) > 1:
+					bad("several-firings-for-one-change", fmt.Sprintf("peer %d call %s: %d", p, op.K, len(fresh)))
+				}
+				s.outstanding = true
 			}
+		} else if len(fresh) > 0 && after == 1 && !closedNow {
+			bad("firing-without-update-step", fmt.Sprintf("peer %d call %s", p, op.K))
 		}
-		s.prevState = after
 	}
 	for _, op := range c.Ops {
 		before = snapshot(op.P)
 		w.exec(op)
 	}
 	total := st[0].total + st[1].total
-	v := Pass(fmt.Sprintf("firings%d/exchanges%d", min(total, 6)/2*2, min(exchanges, 4)/2*2), total > 0)
+	amb := ""
+	if st[0].ambiguous+st[1].ambiguous > 0 {
+		amb = "/answer-direction-ambiguous"
+	}
+	v := Pass(fmt.Sprintf("firings%d/exchanges%d%s", min(total, 6)/2*2, min(exchanges, 4)/2*2, amb), total > 0)
 	if fail != nil {
 		v = *fail
 	}
@@ -240,13 +329,13 @@ func init() {
 				nOp{P: 0, K: nAddTcvKind, Kind: 1, Dir: 3}),
 				xa...),
 				nOp{P: 0, K: nRemoveTrack, TI: 0}, nOp{P: 1, K: nAddTrack, Kind: 1, ID: "tb", Stream: "s2"})},
-			// witness of c04_no_refire_refuted: the remote answers inactive; RemoveTrack
+			// c04_literal_reading_counterexample_withdrawn_need (passes under the W3C reading): the remote answers inactive; RemoveTrack
 			// fires, AddTrack of the same track withdraws the need, RemoveTrack fires again
 			{Ops: append(append([]nOp{{P: 0, K: nAddTrack, Kind: 2, ID: "ta", Stream: "s1"}}, munged(4)...),
 				nOp{P: 0, K: nRemoveTrack, TI: 0},
 				nOp{P: 0, K: nAddTrack, Kind: 2, ID: "ta", Stream: "s1"},
 				nOp{P: 0, K: nRemoveTrack, TI: 0})},
-			// witness of c04_fires_after_change_refuted: the remote answers sendonly;
+			// c04_literal_reading_counterexample_already_advertised (passes): the remote answers sendonly;
 			// RemoveTrack then AddTrack of the same track: no firing at all
 			{Ops: append(append([]nOp{{P: 0, K: nAddTrack, Kind: 2, ID: "ta", Stream: "s1"}}, munged(2)...),
 				nOp{P: 0, K: nRemoveTrack, TI: 0},
